@@ -22,7 +22,7 @@ from .read import HEADER_SCHEMA, SYNC_SIZE, MAGIC, reader
 from .logical_writers import LOGICAL_WRITERS
 from .schema import extract_record_type, extract_logical_type, parse_schema
 from ._write_common import _is_appendable
-from ._schema_common import inline_separately_parsed_types
+from ._schema_common import inline_separately_parsed_types, default_to_datum
 from .types import Schema, NamedSchemas
 
 
@@ -267,7 +267,11 @@ def write_record(encoder, datum, schema, named_schemas, fname, options):
                 )
             elif "default" not in field and not _accepts_null(field_type):
                 raise ValueError(f"no value and no default for {name}")
-        datum_value = datum.get(name, field.get("default"))
+            datum_value = default_to_datum(
+                field.get("default"), field_type, named_schemas
+            )
+        else:
+            datum_value = datum[name]
         if field_type == "float" or field_type == "double":
             # Handle float values like "NaN"
             datum_value = float(datum_value)
